@@ -27,6 +27,10 @@ SENDER = "self.owner.is_sender"
 NEG_START_FIELDS = {**c06.F_STATE, **c06.F_BUF, **c06.F_NEG, "transport": "obj[Transport]", "owner": "obj[Common]",
                     "relay_handshake": "opt[bytes]"}
 
+# what __init__ establishes and add_connection_hints (C20) keeps: the peer's hints are parsed hint objects, the side is 16 hex digits
+CLASS_INV = "all_valid(self._their_direct_hints) and all_relays_valid(self._our_relay_hints) and is_hex16(self._side)"
+STABLE_COMMON = ("is_sender", "_side", "_tor", "_reactor", "_no_listen", "_transit_relays")     # stored by __init__ only
+
 CONTRACTS = [
     Contract(T + "Connection._check_and_remove", props=[PROP], params={"expected": "bytes"},
              self_fields={"buf": "bytes"}, modifies=["buf"], returns="bool",
@@ -411,6 +415,36 @@ CONTRACTS = [
                                 "bcall_arg('callback', 0, 0) == self._inbound_d and bcall_arg('callback', 0, 1) is p")],
              note="the listener's Deferred fires with the first inbound connection that finished negotiation, after every other "
                   "pending inbound negotiation was cancelled (_shutdown by contract)"),
+    # ------------------------------------------------------------------ connect(): the inlineCallbacks wrapper
+    Contract(T + "Common.connect", props=[PROP], params={},
+             self_fields={"is_sender": "bool", "_transit_key": "bytes", "_side": "str", "_listener_d": f"opt[{DEFERRED}]",
+                          "_their_direct_hints": f"seq[{_c20.HINT}]", "_our_relay_hints": "set[nt[RelayV1Hint]]",
+                          "_tor": "opt[obj[Tor]]", "_reactor": "obj[Reactor]", "_waiting_for_transit_key": f"seq[{DEFERRED}]"},
+             requires=[CLASS_INV],
+             modifies=["_transit_key", "_listener_d", "_their_direct_hints", "_our_relay_hints", "_waiting_for_transit_key"],
+             returns="obj[Connection]", raises={"TransitError": None, "RaceFailure": None},
+             ensures=[("returns-the-winner-of-the-race", "result is event_arg('fired', 0, 1)")],
+             internal_ensures=[
+                 ("key-awaited-then-exactly-one-race",
+                  "suspension_order() == ['key', 'call:_connect', 'race'] and n_calls('_connect') == 1"),
+                 ("the-race-awaited-is-the-one-started",
+                  "n_events('fired') == 1 and event_arg('fired', 0, 0) == call_result('_connect')"),
+                 ("a-key-not-yet-known-is-waited-for-not-skipped",
+                  "implies(len(old(self._transit_key)) == 0, n_events('resumed-by-set_transit_key') == 1) and "
+                  "implies(len(old(self._transit_key)) > 0, n_events('resumed-by-set_transit_key') == 0)")],
+             ensures_raise={"TransitError": [("no-contenders-nothing-raced", "n_events('fired') == 0 and n_events('failed') == 0 and "
+                                              "n_calls('_connect') == 1")],
+                            "RaceFailure": [("the-failure-of-the-race-propagates",
+                                             "n_calls('_connect') == 1 and n_events('failed') == 1 and "
+                                             "event_arg('failed', 0, 0) == call_result('_connect')")]},
+             note="@inlineCallbacks generator, `yield` by the model transit_yield_model below: first _get_transit_key() (inlined) is "
+                  "awaited - an already-fired Deferred (defer.succeed) resumes at once, a fresh one must be registered in "
+                  "_waiting_for_transit_key and resumes from set_transit_key with the key just stored; only then _connect() (by "
+                  "contract: its precondition `a transit key is set`, len(self._transit_key) > 0, is the obligation "
+                  "connect.call[Common._connect].requires.3, proved at the call with the state of that moment) runs, exactly once; what its Deferred "
+                  "fires with is returned unchanged; TransitError (no contenders) and the failure of the race leave connect() "
+                  "(the errback of its Deferred).  This version of transit.py sets no description in connect(): the winner's "
+                  "description is Connection.describe() of the returned object"),
 ]
 
 
@@ -482,9 +516,100 @@ def regf(exclude=()):
     sf["iter_bcall_kwarg"] = iter_bcall_kwarg
     em = reg.ext_models
     em["time.time"] = lambda it, args, kw: it.fresh("real", "now")
+
+    def succeed(it, args, kw):
+        """defer.succeed(x): a new, already fired Deferred; what it carries is remembered by the event"""
+        d = it.fresh(DEFERRED, "succeeded")
+        x = args[0]
+        xf = it.force(x)
+        it.ctx.event("succeed", d, x, "key" if isinstance(xf, VStr) and xf.kind == "bytes" else "hints")
+        return d
+
+    em["twisted.internet.defer.succeed"] = succeed
     sf["probe"] = lambda it: VOpaque(z3.Const("probe!result", opaque_sort("Any")), "Any")
     reg.spec_funcs["exc_class"] = lambda it, x: VStr(it.force(x).cls if isinstance(it.force(x), VObj) else "?")
     sf["diverges"] = lambda it, a, b: VBool(z3.And(z3.Not(z3.PrefixOf(a.z, b.z)), z3.Not(z3.PrefixOf(b.z, a.z))))
+    return reg
+
+
+def _self_frame(fr):
+    f = fr
+    while f is not None and f.selfobj is None:
+        f = f.parent
+    return f
+
+
+def transit_yield_model(it, node, fr):
+    """`yield d` inside an @inlineCallbacks method of Common (Deferreds are opaque values here, identified by the event that
+    created them).  defer.succeed(x): already fired, the generator goes on at once with x, nothing else runs in between.
+    A Deferred made by defer.Deferred(): only the key waiters have a deferred-result contract - it must be in
+    _waiting_for_transit_key (proved), set_transit_key() then stores the key and calls d.callback(key), which resumes the
+    generator synchronously: self._transit_key is the value sent, and callers pass a non-empty key.  The Deferred returned by
+    Common._connect (by contract): fires with a Connection (the winner of the race) or fails.  At every real suspension all
+    fields of self that are not stored by __init__ only are havocked and the class invariant is assumed again."""
+    from . import deferred as _d
+    v = it.force(it.eval(node.value, fr)) if node.value is not None else NONE
+    if not (isinstance(v, VOpaque) and v.name == "Deferred"):
+        return v
+    tr = list(it.ctx.trace)
+
+    def same(x):
+        x = it.force(x) if x is not None else None
+        return isinstance(x, VOpaque) and x.z.eq(v.z)
+
+    sfr = _self_frame(fr)
+
+    def suspend():
+        _d.havoc_unstable(it, fr)
+        it.ctx.assume(it.truth(it.eval_spec(CLASS_INV, sfr)))
+
+    for e in tr:
+        if e[0] == "succeed" and same(e[1][0]):
+            it.ctx.event("yield", "key" if e[1][2] == "key" else e[1][2])
+            return e[1][1]
+    for e in tr:
+        if e[0] == "callret" and e[1][0].endswith("Common._connect") and same(e[1][1]):
+            it.ctx.event("yield", "race")
+            suspend()
+            if it.ctx.choose([z3.BoolVal(True), z3.BoolVal(True)], "race-outcome") == 1:
+                it.ctx.event("failed", v)
+                it.raise_("RaceFailure")
+            w = it.fresh("obj[Connection]", "winner")
+            it.ctx.event("fired", v, w)
+            return w
+    for e in tr:
+        if e[0] == "new-deferred" and same(e[1][0]):
+            waiting = it.force(sfr.selfobj.fields["_waiting_for_transit_key"])
+            it.ctx.prove(z3.Contains(waiting.z, z3.Unit(v.z)), "connect.yielded-deferred-is-a-registered-key-waiter",
+                         {"kind": "yield", "src": "the Deferred awaited for the key is in self._waiting_for_transit_key "
+                                                  "(set_transit_key fires exactly those)"})
+            it.ctx.event("yield", "key")
+            suspend()
+            k = it.fresh("bytes", "key_sent")
+            it.ctx.assume(z3.Length(k.z) > 0)
+            it.ctx.assume(it.force(sfr.selfobj.fields["_transit_key"]).z == k.z)
+            it.ctx.event("resumed-by-set_transit_key", v, k)
+            return k
+    raise OutOfSubset("yield of a Deferred without deferred-result contract")
+
+
+def regf_connect():
+    reg = regf()
+    reg.allow_generators = True
+    reg.yield_model = transit_yield_model
+    reg.stable_fields = {"Common": set(STABLE_COMMON)}
+    reg.exc_bases.setdefault("RaceFailure", "Exception")
+
+    def suspension_order(it):
+        out = []
+        for e in it.ctx.trace:
+            if e[0] == "yield":
+                out.append(VStr(e[1][0]))
+            elif e[0] == "call" and e[1][0].endswith("Common._connect"):
+                out.append(VStr("call:_connect"))
+        return VList(out)
+
+    reg.spec_funcs["suspension_order"] = suspension_order
     return reg
 
 
@@ -515,7 +640,8 @@ def regf_inbound():
 
 def tasks():
     special = {T + "InboundConnectionFactory.connectionWasMade": regf_inbound, T + "Connection._dataReceived": regf_opaque_hs, T + "Connection.startNegotiation": regf_inline_sm,
-               T + "there_can_be_only_one": lambda: regf(exclude=(T + "_ThereCanBeOnlyOne.__init__",))}
+               T + "there_can_be_only_one": lambda: regf(exclude=(T + "_ThereCanBeOnlyOne.__init__",)),
+               T + "Common.connect": regf_connect}
     return [ContractTask(c, special.get(c.target, regf)) for c in CONTRACTS]
 
 
